@@ -7,6 +7,37 @@ PROFILE = {"p_ignore": 0.0, "p_valid_inputs": 0.8, "p_float": 0.0, "inputs": ["p
            "weights": dict(input=0.10, const=0.10, bin=0.55, un=0.07, meth=0.12, ite=0.05, guarded=0.0, ignore=0.0, list=0.01)}
 
 
+import progs
+ALL_OPS = ["add", "sub", "mul", "truediv", "floordiv", "mod", "divmod", "pow", "lshift", "rshift", "and", "or", "xor", "lt", "le", "eq", "ne", "gt", "ge"]
+
+
+def matrix_cases(rnd, reps):
+    """every operator x the three operand-kind combinations (secret op secret, secret op int, int op secret) plus booleans,
+    on values from {negative, zero, small, boundary of the bitlength range, just beyond it}"""
+    out = []
+    for op in ALL_OPS:
+        for ka, kb in (("lc", "lc"), ("lc", "int"), ("int", "lc"), ("bool", "bool"), ("bool", "lc"), ("lc", "bool"), ("bool", "int"), ("int", "bool")):
+            for _ in range(reps):
+                n = rnd.choice([3, 4, 5, 8])
+                edge = [0, 1, 2, 3, -1, -2, 5, 2 ** (n - 1) - 1, 2 ** (n - 1), 2 ** n - 1, 2 ** n, -(2 ** n) + 1, -(2 ** n), 2 ** n + 1]
+                small = [0, 1, 2, 3, n - 1, n, n + 1, -1] if op in ("pow", "lshift", "rshift") else edge
+                prog = []; nreg = [0]
+                def new():
+                    nreg[0] += 1
+                    return nreg[0] - 1
+                ins = [rnd.choice(edge), rnd.choice(small), rnd.choice([0, 1]), rnd.choice([0, 1])]
+                def operand(k, slot):
+                    d = new()
+                    if k == "lc": prog.append(["input", d, "priv" if rnd.random() < 0.8 else "pub", slot])
+                    elif k == "bool": prog.append(["input", d, "privbool", 2 + slot])
+                    else: prog.append(["const", d, ["int", ins[slot]]])
+                    return d
+                a = operand(ka, 0); b = operand(kb, 1)
+                prog.append(["bin", new(), op, a, b])
+                out.append(dict(cfg=dict(p=rnd.choice([progs.BN, progs.BN, progs.BLS, 65537]), n=n, res=2, ign=0), prog=prog, ins=ins))
+    return out
+
+
 def same(tv, iv, p):
     """twin value vs implementation value (values at or beyond the field size can only agree modulo p)"""
     def eqv(a, b): return a == b or (abs(a) >= p and (a - b) % p == 0)
@@ -20,9 +51,13 @@ def same(tv, iv, p):
     return None
 
 
-def key_of(s, t):
+def key_of(s, t, case=None, tv=None, iv=None):
     """stable classification of the failing call site (used to match known findings narrowly)"""
     if s is None: return "?"
+    if case is not None and s[0] == "bin" and s[2] == "pow" and isinstance(tv, int) and tv < 0 and isinstance(iv, dict) and "lc" in iv \
+            and (tv - iv["lc"]) % case["cfg"]["p"] == 0 and 0 <= iv["lc"] < case["cfg"]["p"]:
+        d = [q for q in case["prog"] if q[0] == "input" and q[1] == s[4]]
+        if d: return "pow:negative-power-with-secret-exponent"
     regval = {}
     if s[0] == "bin" and s[2] in ("and", "or", "xor"):
         a, b = t.get("r%d" % s[3]), t.get("r%d" % s[4])
@@ -45,18 +80,30 @@ def oracle(case, rec, group):
         st_ = stmt_at(case["prog"], pc_)
         if st_ is not None and st_[0] not in ("guarded", "ignore"): t["r%d" % st_[1]] = v_
     out = []
+    P = case["cfg"]["p"]
+    def beyond(v):
+        if isinstance(v, (list, tuple)): return any(beyond(x) for x in v)
+        return isinstance(v, int) and abs(v) >= P
+    def operands(s):
+        if s is None: return []
+        if s[0] == "bin": return [t.get("r%d" % s[3]), t.get("r%d" % s[4])]
+        if s[0] == "un": return [t.get("r%d" % s[3])]
+        if s[0] == "meth": return [t.get("r%d" % s[4])] + [t.get("r%d" % q) for q in s[5]]
+        if s[0] == "ite": return [t.get("r%d" % s[2]), t.get("r%d" % s[3]), t.get("r%d" % s[4])]
+        return []
     for pc, iv in rec["vals"]:
+        if any(beyond(o) for o in operands(stmt_at(case["prog"], pc))): break      # operands at or beyond the field size: integers and field elements part ways
         if pc in t:
             ok = same(t[pc], iv, case["cfg"]["p"])
             if ok is False:
                 s = stmt_at(case["prog"], pc)
-                out.append(dict(op=(s[2] if s and s[0] in ("bin", "un", "meth") else s[0] if s else "?"), key=key_of(s, t),
+                out.append(dict(op=(s[2] if s and s[0] in ("bin", "un", "meth") else s[0] if s else "?"), key=key_of(s, t, case, t[pc], iv),
                                 what="returned a value different from plain Python semantics", statement=s, pc=pc,
                                 python=repr(t[pc]), pysnark=iv, operands=[repr(t.get(q)) for q in range(1, pc)][-4:]))
                 break
-        elif raised and raised[0] == pc and iv is not None:
+        elif raised and raised[0] == pc and iv is not None and raised[1] not in twin.LIMITS:
             s = stmt_at(case["prog"], pc)
-            out.append(dict(op=(s[2] if s and s[0] in ("bin", "un", "meth") else "?"),
+            out.append(dict(op=(s[2] if s and s[0] in ("bin", "un", "meth") else "?"), key=key_of(s, t),
                             what="returned a value where plain Python raises (%s)" % raised[1], statement=s, pc=pc, pysnark=iv))
             break
     # inside the documented domain the operation must not raise
@@ -70,7 +117,16 @@ def oracle(case, rec, group):
 
 
 def run(tier, seed):
-    return tracecheck.run(PID, tier, seed, PROFILE, oracle, n_quick=450, n_thorough=8000, require_props=False, mask=1 | 4 | 8, mutation_oracle=True, level="translation_validation")
+    import random
+    pending = matrix_cases(random.Random(seed * 7919 + 5), 2 if tier == "quick" else 15)
+    gen = [None]
+    def casegen(rnd):
+        if pending: return pending.pop()
+        if gen[0] is None: gen[0] = progs.Gen(rnd, PROFILE)
+        return gen[0].case()
+    nm = len(pending)
+    return tracecheck.run(PID, tier, seed, PROFILE, oracle, n_quick=nm + 400, n_thorough=nm + 8000, require_props=False, mask=1 | 4 | 8, mutation_oracle=True,
+                          level="translation_validation", casegen=casegen)
 
 
 def replay(payload):
